@@ -359,4 +359,15 @@ Fixpoint targets (v : variant) (s : srv) (es : list ev) : list N :=
      end) ++ targets v (fst (step v s e)) es'
   end.
 
+(* the latest challenge the server issued on connection k along a history, read off the handler outcomes only:
+   [note] updates it when an event is a handshake on k answered with a challenge *)
+Definition note (k : N) (e : ev) (o : out) (acc : option N) : option N :=
+  let upd_if k' := if k' =? k then match o_auth o with Some (AChallenge n) => Some n | _ => acc end else acc in
+  match e with EMsg k' _ => upd_if k' | EBody k' _ => upd_if k' | _ => acc end.
+Fixpoint last_issued (v : variant) (s : srv) (es : list ev) (k : N) (acc : option N) : option N :=
+  match es with
+  | [] => acc
+  | e :: es' => let so := step v s e in last_issued v (fst so) es' k (note k e (snd so) acc)
+  end.
+
 End WithHmac.
